@@ -56,6 +56,8 @@ static Step gen_owner(Rng &r, const std::string &bias, int force_kind = -1)
 			size = (int)r.range(0, N_RSA_POOL_BITS - 1);
 		else
 			size = (int)r.pick(std::vector<int>{4, 4, 4, 4, 5, 6, 1, 3, 11, 12, 13}); // mostly 2048; 11-13: moduli of 2052, 2050, 3076 bits (not a multiple of 8)
+		if (!weak_bias && r.chance(1, 40))
+			size = 14; // 12288 bits: a PEM of more than 8 KB
 		s.set("idx", r.range(0, 1));
 		break;
 	case 2:
@@ -124,8 +126,21 @@ static void world_gen(Rng &r, Plan &p, Tier tier, uint64_t index)
 	p.cfg["one_thread"] = Val((int64_t)(r.chance(1, 2) ? 1 : 0));
 	p.cfg["reuse"] = Val((int64_t)(r.chance(1, 3) ? 1 : 0));
 	uint64_t uid = 1;
+	// allocation failures inside the operations of the world (a per-run knob): the k-th request of the installed
+	// allocator during one verify / generate / key import returns NULL (sometimes every request from the k-th on)
+	bool allocfaults = r.chance(1, 3);
+	p.cfg["allocfaults"] = Val((int64_t)allocfaults);
 	auto push = [&](Step s) {
 		s.uid = uid++;
+		if (allocfaults && (s.op == "DELIVER" || s.op == "GARBAGE" || s.op == "ISSUE") && r.chance(1, 4)) {
+			s.set("failalloc", r.chance(1, 2) ? r.range(1, 30) : r.range(1, 80));
+			if (r.chance(1, 5))
+				s.set("failfrom", 1);
+		}
+		if (allocfaults && s.op == "OWNER" && r.chance(1, 6))
+			s.set("failalloc", r.range(1, 220));
+		if (allocfaults && s.op == "VERIFIER" && s.I("expect") && r.chance(1, 2))
+			s.set("failalloc", r.range(1, 12));
 		p.steps.push_back(s);
 	};
 	int n_owner = (int)r.range(2, bias == "C08" ? 8 : 4);
@@ -181,6 +196,10 @@ static void world_gen(Rng &r, Plan &p, Tier tier, uint64_t index)
 		v.set("explicit", ex);
 		v.set("exsel", (int64_t)r.below(64));
 		v.set("prov", r.chance(1, 2) ? 0 : 1);
+		if (r.chance(1, 5))
+			v.set("timeoff", 1);
+		if (route >= 7 && r.chance(1, 2))
+			v.set("selective", 1); // the callback overrides for some tokens only (DELIVER says for which)
 		if (r.chance(1, 4))
 			v.set("ctxupd", 1);
 		if (bias == "C06" && r.chance(1, 2))
@@ -251,7 +270,8 @@ static void world_gen(Rng &r, Plan &p, Tier tier, uint64_t index)
 			issued++;
 		} else if (roll < 26) {
 			Step s("ADVANCE");
-			s.set("dt", r.range(0, 3600));
+			// the clock mostly moves forward; now and then it is stepped back (NTP correction, VM resume)
+			s.set("dt", r.chance(1, 5) ? -r.range(1, r.chance(1, 2) ? 3 : 7200) : r.range(0, 3600));
 			push(s);
 		} else if (roll < 30 && bias != "C05" && bias != "C08") {
 			// key rotation / reconfiguration of a verifier in mid-run: tokens issued for the old
@@ -351,6 +371,8 @@ static void world_gen(Rng &r, Plan &p, Tier tier, uint64_t index)
 			Step s("DELIVER");
 			s.set("token", (int64_t)r.below(64));
 			s.set("to", (int64_t)r.below((uint64_t)n_ver));
+			if (r.chance(1, 2))
+				s.set("cbpassive", 1); // a verifier with a selective callback: for this token the callback only looks
 			if (r.chance(3, 4))
 				s.set("match", 1); // route to a verifier that holds the issuing owner's key when one exists
 			if ((int)r.below(100) < fprob) {
@@ -390,6 +412,13 @@ struct Party {
 	int eff_explicit = JWT_ALG_NONE;
 	bool reject_all = false; // callback returns error
 	bool pin_dontcare = false;
+	// a callback that overrides key and/or algorithm for some tokens only: the configuration in force with the callback
+	// acting (A) and with the callback only looking (B = what setkey installed)
+	bool selective = false;
+	struct Eff {
+		bool has_key = false;
+		int owner = -1, key_alg = JWT_ALG_NONE, eff_explicit = JWT_ALG_NONE;
+	} effA, effB;
 	std::vector<int> refs; // owners whose key items the object or its callback context may point to
 	int expect = 0;       // checker: bit0 iss, bit1 sub, bit2 aud expectations (C06 bias)
 	int64_t exp_off = 0;  // issuer: exp offset
@@ -527,6 +556,9 @@ static void check_c08(World &w, const Owner &o, const LoadedKey &lk, const JwkOp
 					bad("pub", "public components of the imported key differ from the JWK's");
 				else if (opts.priv && !key_priv_equal(k, pk))
 					bad("priv", "private components of the imported key differ from the JWK's");
+				// kty RSA denotes an RSA key; only an alg attribute of the PS family makes it an RSASSA-PSS key
+				if (k.kty == K_RSA && EVP_PKEY_is_a(pk, "RSA-PSS") && !(o.key_alg == JWT_ALG_PS256 || o.key_alg == JWT_ALG_PS384 || o.key_alg == JWT_ALG_PS512))
+					bad("pem-key-type", strf("the PEM holds an RSASSA-PSS key although the JWK's alg attribute is %s", opts.has_alg ? show(opts.alg, 20).c_str() : "absent"));
 				EVP_PKEY_free(pk);
 			}
 		}
@@ -713,9 +745,20 @@ static Owner make_owner(World &w, const Step &s, uint64_t salt)
 		if (s.I("late") || salt != s.uid)
 			ctx.count("probe:key_import_in_mid_run_with_entries_on_the_openssl_error_queue");
 	}
-	bool okp = lib_load_key(ctx, jpriv, o.priv);
+	bool imp_fired = false, imp_tainted = false;
+	bool okp = lib_load_key(ctx, jpriv, o.priv, s.I("failalloc"), false, &imp_fired, &imp_tainted);
 	bool oku = lib_load_key(ctx, jpub, o.pub);
 	o.ok = okp && oku;
+	if (imp_tainted) {
+		// the failing request fell inside jansson's parser, which may hand back a damaged document without saying so
+		// (known finding under C17): nobody may use this key, and nothing is judged about the import
+		ctx.count("probe:key_import_under_alloc_fault_inside_jansson_not_judged");
+		lib_free_key(o.priv);
+		lib_free_key(o.pub);
+		o.ok = false;
+		ctx.logf("OWNER %s import under allocation fault inside the JSON parser: discarded", o.truth->label.c_str());
+		return o;
+	}
 	ctx.logf("OWNER %s attr=%d key_alg=%s loadprov=%lld ok=%d/%d", o.truth->label.c_str(), attr, alg_name(o.key_alg), (long long)s.I("loadprov"), okp, oku);
 	ctx.count("probe:keys_published:" + std::string(o.kind == 0 ? "oct" : o.kind == 1 ? "rsa" : o.kind == 2 ? "ec" : "okp"));
 	if (opts.pad_zeros)
@@ -729,11 +772,18 @@ static Owner make_owner(World &w, const Step &s, uint64_t salt)
 		if (okp || oku)
 			ctx.violation("C07", "broken-jwk-not-flagged", o.truth->label, "a JWK with an unknown curve / incomplete private part / missing coordinate was imported without error");
 	}
-	if (in_domain && !o.ok && (s.I("late") || salt != s.uid))
+	if (in_domain && !o.ok && !imp_fired && (s.I("late") || salt != s.uid))
 		// keys must stay importable and usable whatever provider is selected and whatever either provider did before
 		ctx.violation("C12", "key-import-depends-on-history", strf("%s:%s", o.kind == 0 ? "oct" : o.kind == 1 ? "RSA" : o.kind == 2 ? "EC" : "OKP", prov_name((int)s.I("loadprov") ? 1 : 0)),
 			      strf("well-formed key %s could not be imported in mid-run with %s selected: %s / %s", o.truth->label.c_str(), prov_name((int)s.I("loadprov") ? 1 : 0),
 				   o.priv.item ? jwks_item_error_msg(o.priv.item) : "(no item)", o.pub.item ? jwks_item_error_msg(o.pub.item) : "(no item)"));
+	if (in_domain && imp_fired && !okp) {
+		// a reported failure under an injected fault is a legitimate outcome
+		ctx.count("probe:key_import_failed_under_alloc_fault");
+		lib_free_key(o.priv);
+		lib_free_key(o.pub);
+		return o;
+	}
 	if (in_domain) {
 		opts.priv = true;
 		check_c08(w, o, o.priv, opts, "private", s, jpriv_plain);
@@ -893,6 +943,11 @@ static void do_party(World &w, const Step &s, bool checker)
 		malg = mkalg;
 		alg_from_owner = mowner;
 	}
+	Party::Eff after_pre;
+	after_pre.has_key = mk;
+	after_pre.owner = mk ? mowner : -1;
+	after_pre.key_alg = mk ? mkalg : JWT_ALG_NONE;
+	after_pre.eff_explicit = malg;
 	if (rd.cb) {
 		Owner *ko = rd.other ? o2 : o;
 		int koi = rd.other ? oi2 : oi;
@@ -949,11 +1004,31 @@ static void do_party(World &w, const Step &s, bool checker)
 	// an algorithm that was resolved from one key and then applied to another key swapped in by
 	// the callback: the statement does not say whose pin that is -> admission/pin not asserted
 	p.pin_dontcare = !checker && mk && alg_from_owner >= 0 && alg_from_owner != mowner;
+	if (checker && s.I("selective") && rd.pre && (rd.cb == 2 || rd.cb == 3 || rd.cb == 4)) {
+		p.selective = true;
+		p.effA.has_key = p.has_key;
+		p.effA.owner = p.owner;
+		p.effA.key_alg = p.key_alg;
+		p.effA.eff_explicit = p.eff_explicit;
+		p.effB = after_pre;
+		ctx.count("probe:verifiers_whose_callback_overrides_for_some_tokens_only");
+	}
 	if (p.route == 6)
 		ctx.logf("%s route=6 (no key)", checker ? "VERIFIER" : "ISSUER");
+	if (checker && s.I("timeoff")) {
+		// every claim check switched off (the documented -1): nothing else about the checker may change with it
+		Armed a;
+		jwt_checker_time_leeway(p.chk, JWT_CLAIM_EXP, -1);
+		jwt_checker_time_leeway(p.chk, JWT_CLAIM_NBF, -1);
+		ctx.count("probe:verifiers_with_every_claim_check_switched_off");
+	}
 	if (checker && s.I("expect")) {
 		p.expect = (int)s.I("expect") & 7;
-		Armed a;
+		// (with allocation faults in the run: one request of this configuration phase may fail; the calls report it
+		// or not, the checker must stay safe to use either way)
+		Armed a(s.I("failalloc"));
+		if (s.I("failalloc"))
+			ctx.count("fault:alloc_fail_while_configuring_expectations");
 		if (p.expect & 1)
 			jwt_checker_claim_set(p.chk, JWT_CLAIM_ISS, "issuer-x");
 		if (p.expect & 2)
@@ -1157,6 +1232,12 @@ static void do_issue_once(World &w, const Step &s, bool keep);
 static void do_issue(World &w, const Step &s)
 {
 	int64_t burst = s.I("burst");
+	if (burst > 2 && !w.issuers.empty()) {
+		// (a private operation with a 12288-bit modulus takes a fifth of a second: no bursts with those)
+		const KeyTruth *bk = party_truth(w, w.issuers[(uint64_t)s.I("issuer") % w.issuers.size()]);
+		if (bk && bk->kty == K_RSA && bk->bits > 8192)
+			burst = 2;
+	}
 	for (int64_t b = 1; b < burst; b++)
 		do_issue_once(w, s, false);
 	do_issue_once(w, s, true);
@@ -1180,7 +1261,17 @@ static void do_issue_once(World &w, const Step &s, bool keep)
 	int pin = pinned_alg(p.has_key, p.key_alg, p.eff_explicit);
 	const AlgInfo *pa = pin > 0 ? alg_by_id(pin) : NULL;
 	int64_t t0 = g_clock.now();
-	GenerateOut go = lib_generate(ctx, p.bld);
+	GenerateOut go = lib_generate(ctx, p.bld, true, keep ? s.I("failalloc") : 0, keep && s.I("failfrom") != 0);
+	bool faulted = go.faults_fired > 0;
+	if (go.tainted) {
+		// the failing request fell inside json_dumps / a jansson parse (known finding under C17): not judged, not delivered
+		ctx.count("probe:issue_under_alloc_fault_inside_jansson_not_judged");
+		if (!go.ok)
+			jwt_builder_error_clear(p.bld);
+		return;
+	}
+	if (faulted)
+		ctx.count("probe:issue_judged_under_alloc_fault");
 	ctx.logf("ISSUE issuer=%d prov=%s key=%s pin=%s adm=%d -> %s msg='%s'", ii, prov_name(p.prov), k ? k->label.c_str() : "none",
 		 pin > 0 ? alg_name(pin) : "-", adm, go.ok ? show(go.token, 60).c_str() : "NULL", go.msg.c_str());
 	if (!go.ok)
@@ -1209,6 +1300,26 @@ static void do_issue_once(World &w, const Step &s, bool keep)
 				ctx.violation("C10", "token-shape", "not-json-objects", strf("header or payload of the generated token is not a JSON object: %s", show(go.token, 400).c_str()));
 			if (ha)
 				ctx.sig(strf("C10shape|%s|%zu", ha->name, d2.size() % 3));
+			// C10 content: the header is the builder's headers with alg forced and typ defaulting to JWT on signed tokens,
+			// the payload the builder's claims plus iat / exp - with or without an allocation failure on the way
+			if (shape && tp.hdr_ok && tp.pay_ok && p.hdr_in && p.claims_in && ha) {
+				json_t *eh = json_deep_copy(p.hdr_in), *ec = json_deep_copy(p.claims_in);
+				json_object_set_new(eh, "alg", json_string(ha->name));
+				if (ha->fam != FAM_NONE && !json_object_get(eh, "typ"))
+					json_object_set_new(eh, "typ", json_string("JWT"));
+				if (p.iat)
+					json_object_set_new(ec, "iat", json_integer(t0));
+				if (p.exp_off > 0)
+					json_object_set_new(ec, "exp", json_integer(t0 + p.exp_off));
+				if (!json_equal(tp.hdr, eh))
+					ctx.violation("C10", "token-header-content", strf("%s%s", ha->name, faulted ? ":under-alloc-fault" : ""),
+						      strf("header of the generated token is %s, the builder was told %s", show(json_text(tp.hdr), 300).c_str(), show(json_text(eh), 300).c_str()));
+				if (!json_equal(tp.pay, ec))
+					ctx.violation("C10", "token-payload-content", strf("%s%s", ha->name, faulted ? ":under-alloc-fault" : ""),
+						      strf("payload of the generated token is %s, the builder was told %s", show(json_text(tp.pay), 300).c_str(), show(json_text(ec), 300).c_str()));
+				json_decref(eh);
+				json_decref(ec);
+			}
 		}
 		if (p.has_key) {
 			// C03: a builder that was given a key never emits an unsigned token
@@ -1301,11 +1412,11 @@ static void do_issue_once(World &w, const Step &s, bool keep)
 	} else {
 		// C05 completeness: usable private/symmetric key + admissible algorithm => a token
 		bool usable = p.has_key && !(p.owner >= 0 && w.owners[(size_t)p.owner].broken) && adm && !p.pin_dontcare && pa && k && key_family_ok(*k, *pa) && key_strength_ok(*k, *pa) && provider_supports(p.prov, *pa, *k);
-		if (usable)
+		if (usable && !faulted)
 			ctx.violation("C05", "generate-failed", strf("%s:%s:%s", pa->name, k->label.c_str(), prov_name(p.prov)),
 				      strf("jwt_builder_generate returned NULL ('%s') for usable key %s and admissible algorithm %s on %s", go.msg.c_str(), k->label.c_str(), pa->name,
 					   prov_name(p.prov)));
-		if (!p.has_key && adm && !p.reject_all)
+		if (!p.has_key && adm && !p.reject_all && !faulted)
 			ctx.violation("C03", "builder-nokey-failed", strf("route%d", p.route), strf("builder without key failed to generate an alg-none token: '%s'", go.msg.c_str()));
 	}
 }
@@ -1380,14 +1491,40 @@ static void do_refissue(World &w, const Step &s)
 
 // ---------------------------------------------------------------- DELIVER / GARBAGE
 static void judge_delivery(World &w, Party &v, int vi, const std::string &tok, const Msg *src, bool pristine, bool destroys, bool encoding_level,
-			   const std::string &faults)
+			   const std::string &faults_in, int64_t fail_at = 0, bool fail_from = false, bool cb_acts = true)
 {
 	Ctx &ctx = w.ctx;
 	set_provider(v.prov);
+	if (v.selective && v.cb) {
+		// this token: does the callback act, or only look? The pin in force is setkey's when it only looks - whatever
+		// it chose for earlier tokens
+		const Party::Eff &e = cb_acts ? v.effA : v.effB;
+		v.cb->passive = !cb_acts;
+		v.has_key = e.has_key;
+		v.owner = e.owner;
+		v.key_alg = e.key_alg;
+		v.eff_explicit = e.eff_explicit;
+	}
 	if (v.cb)
 		v.cb->capture = pristine && src && src->from_builder;
-	VerifyOut vo = lib_verify(ctx, v.chk, tok.c_str());
+	VerifyOut vo = lib_verify(ctx, v.chk, tok.c_str(), true, fail_at, fail_from);
 	bool acc = vo.ret == 0;
+	// Under an injected allocation failure every "accepted only if" monitor stays in force (a failed allocation is no
+	// licence to accept); what a fault-free verify owes a good token is not demanded. A fault that fell inside
+	// jansson's parser may have changed what libjwt read (known finding under C17): such a delivery is not judged.
+	bool faulted = vo.faults_fired > 0;
+	if (vo.tainted) {
+		ctx.count("probe:delivery_under_alloc_fault_inside_jansson_not_judged");
+		ctx.logf("DELIVER to=%d under allocation fault %lld inside the JSON parser -> ret=%d: not judged", vi, (long long)fail_at, vo.ret);
+		if (!acc)
+			jwt_checker_error_clear(v.chk);
+		return;
+	}
+	std::string faults = faults_in;
+	if (faulted) {
+		faults += faults.empty() ? "allocfail" : ",allocfail";
+		ctx.count("probe:delivery_judged_under_alloc_fault");
+	}
 	const KeyTruth *k = party_truth(w, v);
 	bool adm = admissible(v.has_key, v.key_alg, v.eff_explicit);
 	int pin = pinned_alg(v.has_key, v.key_alg, v.eff_explicit);
@@ -1475,17 +1612,17 @@ static void judge_delivery(World &w, Party &v, int vi, const std::string &tok, c
 	} else {
 		// C05 completeness: pristine token of owner O with alg A to a verifier holding O's key pinned to A
 		bool live = !(src && src->exp_at && g_clock.now() >= src->exp_at); // not expired at the verifier's instant
-		if (pristine && live && !unusable_key && src && !src->unsigned_tok && !v.expect && v.has_key && v.owner == src->owner && adm && pa && pa->id == src->alg && k && key_family_ok(*k, *pa) &&
+		if (!faulted && pristine && live && !unusable_key && src && !src->unsigned_tok && !v.expect && v.has_key && v.owner == src->owner && adm && pa && pa->id == src->alg && k && key_family_ok(*k, *pa) &&
 		    key_strength_ok(*k, *pa) && provider_supports(v.prov, *pa, *k) && !v.reject_all)
 			ctx.violation("C05", "valid-token-rejected", strf("%s:%s:%s->%s", pa->name, k->label.c_str(), src->from_builder ? prov_name(src->prov) : "reference", prov_name(v.prov)),
 				      strf("pristine %s token from %s for key %s rejected by %s verifier: '%s' token=%s", pa->name, src->from_builder ? prov_name(src->prov) : "the reference signer",
 					   k->label.c_str(), prov_name(v.prov), vo.msg.c_str(), show(tok, 300).c_str()));
-		if (pristine && live && src && src->unsigned_tok && !v.expect && !v.has_key && v.eff_explicit == JWT_ALG_NONE && !v.reject_all)
+		if (!faulted && pristine && live && src && src->unsigned_tok && !v.expect && !v.has_key && v.eff_explicit == JWT_ALG_NONE && !v.reject_all)
 			ctx.violation("C03", "checker-nokey-rejects-none", "pristine-none",
 				      strf("checker without key rejected a pristine alg-none token: '%s' %s", vo.msg.c_str(), show(tok, 200).c_str()));
 	}
 	// C05 content: what the checker callback read equals what the builder was given plus library members
-	if (acc && pristine && src && src->from_builder && v.cb && v.cb->capture && v.cb->calls > 0 && src->issuer >= 0) {
+	if (acc && !faulted && pristine && src && src->from_builder && v.cb && v.cb->capture && v.cb->calls > 0 && src->issuer >= 0) {
 		Party &is = w.issuers[(size_t)src->issuer];
 		json_t *eh = json_deep_copy(is.hdr_in), *ec = json_deep_copy(is.claims_in);
 		json_object_set_new(eh, "alg", json_string(alg_name(src->alg)));
@@ -1515,7 +1652,7 @@ static void judge_delivery(World &w, Party &v, int vi, const std::string &tok, c
 			json_decref(gc);
 	}
 	// C12: same verdict under the other provider for pristine or not-validly-signed tokens
-	if (w.bias == "C12" && k && ha && ha->fam != FAM_NONE && provider_supports(PROV_GNUTLS, *ha, *k)) {
+	if (w.bias == "C12" && !faulted && k && ha && ha->fam != FAM_NONE && provider_supports(PROV_GNUTLS, *ha, *k)) {
 		bool comparable = (pristine && !malformed) || (destroys && !refvalid && !encoding_level);
 		if (comparable) {
 			set_provider(1 - v.prov);
@@ -1689,7 +1826,7 @@ static void do_deliver(World &w, const Step &s, bool garbage)
 		if (tp.has2 && b64_decode_lenient(tp.seg[2], sg) && sg.size() == 2 * w2 && (sg[0] & 0x80) && (sg[w2] & 0x80))
 			ctx.count(strf("probe:ec_signature_with_longest_der_encoding_delivered:%s:%s", vk->crv.c_str(), prov_name(v.prov)));
 	}
-	judge_delivery(w, v, vi, tok, src, pristine, destroys, enc, faults);
+	judge_delivery(w, v, vi, tok, src, pristine, destroys, enc, faults, s.I("failalloc"), s.I("failfrom") != 0, s.I("cbpassive") == 0);
 }
 
 // ---------------------------------------------------------------- executor
@@ -1721,6 +1858,7 @@ static void world_exec(Ctx &ctx)
 			ctx.logf("ADVANCE %lld", (long long)s.I("dt"));
 		}
 	};
+	g_alloc.spare_jansson = true;
 	g_alloc.reuse = w.plan.C("reuse") != 0;
 	if (g_alloc.reuse)
 		ctx.count("fault:allocator_address_reuse_runs");
